@@ -39,3 +39,9 @@ Lemma converter_match_tie c src dst :
   = str_eqb (IdentMatcher_pattern (NameMatcher_src (FieldConverter_m c))) src
     && str_eqb (IdentMatcher_pattern (NameMatcher_dst (FieldConverter_m c))) dst.
 Proof. destruct c as [[[sp sps] [dp dps] pos] cv at_ rt re]. reflexivity. Qed.
+
+(** Options.CompareFieldName: the comparison of a destination field's name with a source member's name
+    (the name pass of the builder): equality, or simple-fold equality under :case:off *)
+Lemma compare_field_name_tie o a b :
+  Options_CompareFieldName o a b = if Options_ExactCase o then str_eqb a b else str_equal_fold a b.
+Proof. reflexivity. Qed.
